@@ -200,7 +200,7 @@ def run(ctx):
             if "link_error" in r:
                 bad.append((fam, j, {"stage": "link", "how": r["link_error"]}))
             for c, spec in zip(r.get("calls", []), j["calls"]):
-                if "fail" in c and c["fail"]["exc"] == "Timeout":
+                if "fail" in c and c["fail"]["exc"] in ("Timeout", "RecursionError"):     # unbounded loop / recursion of the NSL program itself
                     key += ":no-result-within-time-limit"      # a loop that does not terminate is not an internal error
                     break
                 if "fail" in c and c["fail"]["exc"] not in ALLOWED:
